@@ -159,29 +159,32 @@ class Tags:
                             "dry": rng.random() < 0.3})
         return {"pattern": pat["pattern"], "epoch": epoch.isoformat(), "state": state, "cfg_text": cfg_text,
                 "branches": branches, "head": rng.choice(branches), "tags": tags, "scope": scope,
+                "pers": "hg" if (not self.real and rng.random() < 0.2) else "git",
                 "commit": rng.random() < 0.5, "ops": ops}
 
     # ---- world building ---------------------------------------------------------------------------
     def build_fake(self, case, d):
-        repo = fakevcs.FakeRepo("git", remote=True)
-        os.mkdir(os.path.join(d, ".git"))
+        pers = case.get("pers", "git")
+        repo = fakevcs.FakeRepo(pers, remote=True)
+        os.mkdir(os.path.join(d, ".git" if pers == "git" else ".hg"))
+        main = repo.head
         repo.baseline(d)
         base = repo.head_commit()
         tips = {"main": [base]}
         for _ in range(2):
             tips["main"].append(repo.new_commit("main work", []))
         for b in case["branches"][1:]:
-            repo.switch(b, create_from="main")
+            repo.switch(b, create_from=main)
             repo.branches[b] = tips["main"][1]
             tips[b] = [tips["main"][1]]
             for _ in range(3):
                 tips[b].append(repo.new_commit("work on " + b, []))
-        repo.switch("main")
+        repo.switch(main)
         repo.commit_log = []
         for t in case["tags"]:
             chain = tips[t["branch"]]
             repo.tags[t["name"]] = chain[max(0, len(chain) - 1 - t["depth"])]
-        repo.switch(case["head"])
+        repo.switch(main if case["head"] == "main" else case["head"])
         return repo
 
     def build_real(self, case, d, clock):
@@ -245,6 +248,7 @@ class Tags:
             ctx.probe("tagkind_" + k)
         if any(t["branch"] != case["head"] for t in tags):
             ctx.probe("tag_on_other_branch")
+        ctx.probe("personality_" + case.get("pers", "git"))
         two_digit = gp.has_two_digit_year(tree)
         for op in case["ops"]:
             scope = case["scope"] or "default"
@@ -289,6 +293,7 @@ class Tags:
                 c = pep440.cmp(cfg_text, best)
                 rel = "above" if c > 0 else ("equal" if c == 0 else "below")
             facts = {"pattern": pattern, "scope": scope, "ignore": bool(op.get("ignore")), "op": op["op"],
+                     "pers": case.get("pers", "git"),
                      "impossible_tag": "impossible" in kinds, "config_vs_tags": rel}
             abstract = (scope, bool(op.get("ignore")), op["op"], kinds, rel, case["head"] == "main", len(case["branches"]))
             ctx.state(abstract)
